@@ -16,7 +16,7 @@ func init() {
 	registerProperty(&PropertyInfo{
 		ID:    "C16",
 		Title: "Aggregations are exact over the whole match set",
-		Rules: []string{"C16.R1", "C16.R2", "C16.R3", "C16.R4", "C16.R5", "C16.R6"},
+		Rules: []string{"C16.R1", "C16.R2", "C16.R3", "C16.R4", "C16.R5", "C16.R6", "C16.R7", "C09.R5"},
 		Decides: "that every hit and every needed value reaches every calculator: in every collector function that feeds a hit to the top-level bucket, on every path the document values are loaded (whenever fields are needed) before Bucket.Consume, and Consume happens before the paging key, the pruning bound, the top-N store or the match pool are consulted and before any successful return; every hit obtained from the searcher in the collect loop is handed to that function before the next hit is fetched; every Aggregation type that owns nested aggregations includes their Fields() in its own; every Calculator type that owns buckets finishes each of them in its Finish(). the field list handed to the doc-value reader went through a uniqueness filter; a calculator's match counter is incremented exactly once per consumed match.",
 		NotCovered: "numeric exactness of the individual calculators (sums, sketches, quantiles); the values the sources extract.",
 	})
